@@ -149,6 +149,7 @@ type c11Ceremony struct {
 	Done       []int          `json:"completion_order"`
 	Err        string         `json:"err,omitempty"`
 	Validators []c11Validator `json:"validators"`
+	P2P        *c11pConfig    `json:"p2p,omitempty"` // set for ceremonies over the real frostP2P transport (zz_verif_c11p2p_test.go)
 }
 
 type c11Violation struct {
@@ -313,17 +314,22 @@ func c11Check(t *testing.T, c *c11Ceremony, res [][]share.Share, r *rand.Rand, c
 				return "dkg:threshold-signature-invalid", fmt.Sprintf("validator %d: partial signatures of nodes %v combine into a signature that does not verify under the group key: %v", v, sub, err)
 			}
 		}
-		// informational: fewer than t public shares do not reconstruct the key (the threshold is not lower than t)
+		// fewer than t public shares do not reconstruct the key (the threshold is not lower than configured)
 		if th >= 2 {
-			sub := r.Perm(n)[:th-1]
-			pubs := map[int]tbls.PublicKey{}
-			for _, i := range sub {
-				pubs[i+1] = ref.PublicShares[i+1]
+			low := c11Subsets(n, th-1)
+			if len(low) > 20 {
+				r.Shuffle(len(low), func(a, b int) { low[a], low[b] = low[b], low[a] })
+				low = low[:20]
 			}
-			if rp, err := tbls.RecoverPubkey(pubs); err == nil && rp != ref.PubKey {
+			for _, sub := range low {
+				pubs := map[int]tbls.PublicKey{}
+				for _, i := range sub {
+					pubs[i] = ref.PublicShares[i]
+				}
 				checks["below_threshold_does_not_reconstruct"]++
-			} else {
-				checks["below_threshold_RECONSTRUCTS"]++
+				if rp, err := tbls.RecoverPubkey(pubs); err == nil && rp == ref.PubKey {
+					return "dkg:fewer-than-t-shares-reconstruct", fmt.Sprintf("validator %d: the %d public shares %v already reconstruct the group public key (threshold %d)", v, th-1, sub, th)
+				}
 			}
 		}
 	}
@@ -352,6 +358,9 @@ func TestVerifC11(t *testing.T) {
 		}
 		if err := json.Unmarshal(b, &wrap); err != nil {
 			t.Fatal(err)
+		}
+		if wrap.Replay.P2P != nil {
+			t.Skip("real-transport replay: handled by TestVerifC11P2P")
 		}
 		for k := 0; k < 3; k++ {
 			todo = append(todo, c11Ceremony{N: wrap.Replay.N, T: wrap.Replay.T, Vals: wrap.Replay.Vals, OrderSeed: wrap.Replay.OrderSeed + int64(k)})
